@@ -40,17 +40,33 @@ theorem C12_leak_drain_row (m : Mode) (t : TD α) (h : t.Inv) (i : Nat) (hi : i 
   conv => rhs; rw [hs]
   exact List.Perm.append_right _ (List.Perm.append_left _ hy)
 
-/-- leaking the column drain after any consumption -/
-theorem C12_leak_drain_col (d : DrainCol α) :
-    d.leak.1 = ⟨[], 0, 0⟩ ∧ (d.leak.1 : TD α).Inv := by
-  refine ⟨rfl, ⟨rfl, Iff.rfl, ?_⟩⟩
-  show (0 : Nat) < WORD
-  unfold WORD
-  omega
+/-- `mem::forget(remove_row(i))` after any consumption `w` from either end: shape invariant, the rows before `i` survive, and the
+    surviving cells, the yielded items and the leaked elements are together exactly the old cells (nothing duplicated) -/
+theorem C12_leak_drain_row_run (m : Mode) (t : TD α) (h : t.Inv) (i : Nat) (hi : i < t.numRows) (w : List Bool) :
+    ∃ d, t.removeRow m i = .ok d ∧
+      (d.run w).2.leak.1.Inv ∧ (d.run w).2.leak.1.data = t.data.take (i * t.numCols) ∧ (d.run w).2.leak.1.numRows = i ∧
+      (d.run w).2.leak.1.grid = t.grid.take i ∧
+      ((d.run w).2.leak.1.data ++ (d.run w).1 ++ (d.run w).2.leak.2).Perm t.data := by
+  sorry
 
-/-- what the leaked column drain leaves behind plus what it already moved out is exactly the old buffer (no duplication) -/
-theorem C12_leak_drain_col_conserves (d : DrainCol α) (hnd : d.taken.Nodup) (hin : ∀ p ∈ d.taken, p < d.buf.length) :
-    (d.leak.2 ++ d.taken.filterMap (d.buf[·]?)).Perm d.buf :=
-  ow_leak_col_conserves d.buf d.taken hnd hin
+/-- `mem::forget(remove_col(i))` after any consumption `w` from either end: the array is what `remove_col` left behind — the
+    empty array `(0,0)`, which satisfies the shape invariant — and the yielded items plus the leaked elements are exactly the old
+    cells (nothing duplicated, nothing reachable through the array any more) -/
+theorem C12_leak_drain_col_run (m : Mode) (t : TD α) (h : t.Inv) (i : Nat) (hi : i < t.numCols) (w : List Bool) :
+    ∃ d ys d', t.removeCol m i = .ok d ∧ d.run m w = .ok (ys, d') ∧
+      d'.leak.1 = (⟨[], 0, 0⟩ : TD α) ∧ d'.leak.1.Inv ∧ (ys ++ d'.leak.2).Perm t.data := by
+  sorry
+
+/-- consuming a column drain never touches what the borrowed array shows (the three fields `remove_col` zeroed) -/
+theorem C12_drain_col_steps_keep_array (m : Mode) (d : DrainCol α) :
+    (∀ x d', d.next = .ok (x, d') → d'.tdLen = d.tdLen ∧ d'.tdCols = d.tdCols ∧ d'.tdRows = d.tdRows ∧ d'.buf = d.buf) ∧
+    (∀ x d', d.nextBack m = .ok (x, d') → d'.tdLen = d.tdLen ∧ d'.tdCols = d.tdCols ∧ d'.tdRows = d.tdRows ∧ d'.buf = d.buf) := by
+  sorry
+
+/-- non-vacuity: leak a column drain of a 3x2 array after pulling one item from the back -/
+example : (do let d ← TD.removeCol .debug (⟨[1, 2, 3, 4, 5, 6], 2, 3⟩ : TD Nat) 1
+              let (ys, d') ← d.run .debug [false]
+              pure (ys, d'.leak)) = .ok ([5], (⟨[], 0, 0⟩, [1, 2, 3, 4, 6])) := by
+  sorry
 
 end Toodee
